@@ -116,7 +116,7 @@ PROPS["C11"] = dict(
 )
 
 PROPS["C12"] = dict(
-    verus_units=["valid"],
+    verus_units=["valid", "core"],
     technique="Verus contracts on validation/src/block/mod.rs (validate_block, ensure_unique_transactions) + duplication lemma",
     level_text="unbounded deductive proof (all transaction lists) that a block body is accepted iff it is non-empty, starts with a coinbase, "
                "has a matching merkle root and pairwise distinct normalised txids; every list repeating a transaction is refused (CVE-2012-2459 family) by lemma",
@@ -500,3 +500,8 @@ _amend("C17", "level_note", "that every provider's slot is written in every roun
 _relink("C03", "cache side effects inside pop", "cache side effects inside pop: OutPointsCache::remove (verified in unit ledger; a stand-in here) over the opaque `blocks()` vector, tip_depths "
         "(opaque); NextBlockHeaders::remove_until_height and remove_from_cache ARE verified real bodies; UtxoSet::ingest_block(_continue) (verified in unit ingest; assumed contracts here)")
 _relink("C10", "the glue of ValidationContext::new", "unstable_blocks::push body (assumed contract; BlockTree::find_mut assumed)")
+
+_amend("C12", "level_note", "", "")
+PROPS["C12"]["level_note"] += " The canister's glue is part of this check: state::insert_block (unit core) is verified to admit a block only after BlockValidator::validate_block accepted it, whether or not its header had been announced before."
+PROPS["C03"]["unverified_links"] = [x for x in PROPS["C03"]["unverified_links"] if not x.startswith("stability threshold raised by set_config")] + [
+    "the repo's `expect` on unstable_blocks::pop after an ingestion (no stable child any more, e.g. because set_config raised the stability threshold while the block was being ingested) ends the message: refuse mode, no longer a stated precondition"]
